@@ -43,6 +43,8 @@ let timeouts = ref 0
 let armed = ref false
 let () = Sys.set_signal Sys.sigalrm (Sys.Signal_handle (fun _ -> if !armed then begin armed := false; raise Timeout end))
 let timed (f : unit -> 'a) (dflt : 'a) : 'a =
+  (* re-entrant: a nested call runs under the budget of the outermost one (it must not disarm the timer) *)
+  if !armed then f () else begin
   let stop () = armed := false; ignore (Unix.setitimer Unix.ITIMER_REAL { Unix.it_interval = 0.0; it_value = 0.0 }) in
   try
     armed := true;
@@ -50,6 +52,8 @@ let timed (f : unit -> 'a) (dflt : 'a) : 'a =
     let r = f () in stop (); r
   with Timeout -> stop (); incr timeouts; Gc.compact (); dflt
      | Stack_overflow | Out_of_memory -> stop (); incr timeouts; Gc.compact (); dflt
+     | e -> stop (); raise e          (* Skip / Syntax pass through, but never leave the timer armed *)
+  end
 
 (* ---- systems ---- *)
 let sys_dim (s : sys) = List.fold_left (fun a (c : cstr) -> max a (List.length c.coefs)) (List.fold_left (fun a (e : lin) -> max a (List.length e.lcoefs)) 0 s.eqs) s.ineqs
